@@ -52,9 +52,9 @@ var c10TransportOrder = []pb.TransportType{pb.TransportType_Min, pb.TransportTyp
 type c10Live struct{ live bool }
 
 func (l c10Live) PhantomIsLive(addr string, port uint16) (bool, error) { return l.live, nil }
-func (c10Live) PrintAndReset(*log.Logger)                             {}
-func (c10Live) PrintStats(*log.Logger)                                {}
-func (c10Live) Reset()                                                {}
+func (c10Live) PrintAndReset(*log.Logger)                              {}
+func (c10Live) PrintStats(*log.Logger)                                 {}
+func (c10Live) Reset()                                                 {}
 
 type c10World struct {
 	t   *testing.T
@@ -222,6 +222,12 @@ func (w *c10World) run(steps []c10Step, nontrivial bool) {
 			}
 			if f[3] != "-" {
 				f[3] = ans[i].clsPhantom
+			}
+			for _, j := range []int{0, 1} {
+				// enum wire values are int32; the model reads them as unsigned numbers
+				if v, err := strconv.ParseInt(f[j], 10, 32); err == nil && v < 0 {
+					f[j] = strconv.FormatUint(uint64(uint32(v)), 10)
+				}
 			}
 			s.model = "M," + strings.Join(f, ",")
 		}
@@ -495,6 +501,17 @@ var c10Overrides = []c10Override{
 }
 
 func (w *c10World) admittedEnumeration(r *vlib.Rand) {
+	type fam struct{ v4, v6 bool }
+	reps := vlib.Budget(1, 8) // fresh secrets (other phantoms and ports) per cell of the table
+	if reps > 8 {
+		reps = 8
+	}
+	for rep := 0; rep < reps; rep++ {
+		w.admittedTable(r)
+	}
+}
+
+func (w *c10World) admittedTable(r *vlib.Rand) {
 	type fam struct{ v4, v6 bool }
 	for _, tr := range c10TransportOrder {
 		for _, f := range []fam{{true, false}, {false, true}, {true, true}} {
